@@ -320,12 +320,17 @@ func areaCrash(r *Rng, n int, dir string) (*AreaOut, error) {
 			case k < 3:
 				write(in)
 				settle(time.Duration(5+r.Intn(30)) * time.Millisecond)
-			case k < 5: // restart, LMDB kept
+			case k < 5: // restart, LMDB kept: a NEW process (new Syncer object: all volatile state is lost)
 				stop(in)
 				if r.Chance(50) {
 					write(in) // changed while down
 				}
-				start(in)
+				kin, err := newInst(in.idx, in.env, in.closeEnv)
+				if err != nil {
+					return fail(err)
+				}
+				insts[in.idx] = kin
+				start(kin)
 				restarts++
 				settle(40 * time.Millisecond)
 			case k < 8: // restart with an EMPTIED LMDB under the same name
